@@ -4,7 +4,7 @@
 From stdpp Require Import gmap sets.
 From Coq Require Import ZArith.
 From SV Require Import SM.IdMan SM.IdManProofs SM.IdManSpec SM.IdManSpecProofs SM.IdLife SM.IdLifeProofs
-  SM.IdWorld SM.IdWorldProofs SM.IdNode SM.IdNodeProofs Gen.IdSites_gen.
+  SM.IdWorld SM.IdWorldProofs SM.IdNode SM.IdNodeProofs SM.IdFixupHist SM.IdFixupHistProofs Gen.IdSites_gen.
 Open Scope Z_scope.
 
 (** Release discipline read from the source census (Gen/IdSites_gen.v). *)
@@ -35,6 +35,10 @@ Definition keys_writes_registered : bool :=
   forallb (λ '(_, _, _, ok), ok) keys_write_sites && node_setitem_registers.
 Definition node_copy_registers : bool :=
   forallb (λ '(_, _, c, ok), match c with KwCtor => ok | _ => true end) keys_write_sites.
+
+(** Round 3: every place that can put a value into the index table of an EntityFixup is one of the modelled
+    operations (constructor's accepting store, __setitem__'s lowest-unused-index store, index-preserving duplicate). *)
+Definition fixup_writes_modelled : bool := forallb (λ '(_, _, _, ok), ok) fixup_write_sites.
 
 (** The allocator scan always terminates (pigeonhole on the used set). *)
 Theorem c08_get_id_total : ∀ d s, is_Some (get_id d s).
@@ -161,3 +165,22 @@ Theorem c08_node_copy_unregistered_refuted :
   nids (nents (nrun false false true false
                  [NCreate (Some (-1)); NCopy 0; NRemove 1; NGc 1; NCreate (Some (-1))])) = [1; 1].
 Proof. exact node_copy_unregistered_refuted. Qed.
+
+(** Round 3.  replaceNN indexes over whole histories: after the constructor on ANY list (colliding, zero, negative
+    indexes, repeated variables) and EVERY sequence of assignments (also setdefault/update), deletions (also pop),
+    clear(), rebuilds from the table's own values (Entity.copy) and index-preserving duplicates (copy/deepcopy/
+    pickle), the indexes of one entity are pairwise distinct and positive — with the constructor shape read from
+    the source. *)
+Theorem c08_fixup_history : ∀ l ops,
+  fixup_init_requires_positive = true → fixup_init_defers_reinsertion = true →
+  FxInv (fx_hist fixup_init_requires_positive fixup_init_defers_reinsertion l ops).
+Proof. intros l ops -> ->. exact (fx_hist_inv l ops). Qed.
+(** Entity.copy() keeps the numbering: rebuilding a table whose indexes are distinct and positive gives the table. *)
+Theorem c08_fixup_rebuild_keeps_indexes : ∀ f, FxInv f → FxVars f → fx_init true true f = f.
+Proof. exact fx_rebuild_id. Qed.
+(** Both constructor properties are necessary for the history statement. *)
+Theorem c08_fixup_history_needs_positive_test : (fx_hist false true [(7, 0)] [FSet 8; FRebuild]).*2 = [0; 1].
+Proof. exact fx_hist_refuted_without_positive_test. Qed.
+Theorem c08_fixup_history_needs_deferral :
+  (fx_hist true false [(10, 1); (11, 1); (12, 2)] [FDel 10; FSet 13]).*2 = [2; 2; 1].
+Proof. exact fx_hist_refuted_without_deferral. Qed.
